@@ -21,6 +21,7 @@ var vpSkeletons = [][][]int{
 
 // VP_C15_amo_equiv: DetectAtMostOne keeps the set of models (for every assignment).
 func VP_C15_amo_equiv() {
+	zzvp.IntMode(true)
 	var cnf [][]int
 	n := 0
 	if sk := zzvp.Param("skeleton", -1); sk >= 0 || zzvp.Param("skeletons", 0) == 1 {
